@@ -842,3 +842,91 @@ Example ex_filter :
     [mkFrec true 0 false 0; mkFrec false 20 false 1; mkFrec false 23 false 2; mkFrec false 30 true 3; mkFrec false 40 false 4]
   = Some [mkFrec true 0 false 0; mkFrec false 23 false 2; mkFrec false 40 false 4].
 Proof. reflexivity. Qed.
+
+(* ================================================================== F. triggers at every point of an incident's life *)
+Lemma window_inactive closing : window_active closing = false.
+Proof. reflexivity. Qed.
+
+(* a trigger emitted while no reporter is recording -- in particular between stop_recording and finished_recording of
+   the previous one (f_closing arbitrary) -- starts an incident of its own *)
+Theorem trigger_in_window_recorded c f fac lvl ok rp id :
+  c_fault c = NoFault -> c_qual c = true -> i_rep (s_inc (f_s f)) = None ->
+  incident_level <= lvl -> cmpZ threshold_drop_cmp lvl (threshold_of (s_thr (f_s f)) fac) = false ->
+  0 <= limit_of (s_sizes (f_s f)) fac lvl ->
+  let e := mkEv (s_seq (f_s f) + 1) fac lvl ok id in
+  let '(f', r, n) := fcall c f (Msg None fac lvl ok rp id) in
+  r = Some (e_num e) /\ f_closing f' = f_closing f /\ n = [] /\
+  (c_trailing c = true -> exists lines, i_rep (s_inc (f_s f')) = Some (mkRep e lines TRAILING_EVENT_LIMIT true)) /\
+  (c_trailing c = false -> exists lines, i_files (s_inc (f_s f')) = i_files (s_inc (f_s f)) ++ [e :: lines]).
+Proof.
+  intros Hf Hq Hr Hl Hthr Hlim. cbv zeta.
+  unfold fcall. rewrite window_inactive.
+  destruct f as [s closing]. cbn [f_s f_closing] in *.
+  unfold call_nt. cbn [set_zombie with_inc s_seq s_sizes s_thr s_bufs s_inc]. rewrite next_num_spec.
+  unfold msg_inner. cbn [s_thr s_sizes s_bufs s_inc s_seq e_lvl e_fac]. rewrite Hthr.
+  set (i0 := mkInc (i_rep (s_inc s)) false (i_declared (s_inc s)) (i_recorded (s_inc s)) (i_files (s_inc s)) (i_junk (s_inc s))).
+  set (e := mkEv (s_seq s + 1) fac lvl ok id).
+  assert (Hr0 : i_rep i0 = None) by exact Hr.
+  destruct (incident_recorded c (s_sizes s) (s_bufs s) i0 e Hf Hq Hl Hr0 eq_refl Hlim) as (Hx & Hnt & Htr).
+  set (a := add_event c (s_sizes s) (s_bufs s) i0 e) in *.
+  assert (Hn : x_notified a = false).
+  { subst a. destruct (add_event_unfold c (s_sizes s) (s_bufs s) i0 e) as (q' & r & _ & _ & _ & _ & H5). cbv zeta in H5.
+    rewrite H5. rewrite Hr0. destruct r; reflexivity. }
+  rewrite Hx, Hn. cbn [tag map app fst snd f_s f_closing set_zombie with_inc s_inc i_rep i_files].
+  split; [reflexivity|]. split; [reflexivity|]. split; [reflexivity|]. split.
+  - intros Ht. destruct (Htr Ht) as (H1 & _). eexists. exact H1.
+  - intros Ht. destruct (Hnt Ht) as (H1 & _). eexists. exact H1.
+Qed.
+
+(* the timer only stops the recording; the file is published by the next finish *)
+Lemma timer_stop_spec s closing r :
+  i_rep (s_inc s) = Some r -> r_timer r = true ->
+  timer_stop (mkFine s closing) (Some (e_id (r_trigger r))) =
+    mkFine (with_inc s (mkInc None (i_zombie (s_inc s)) (i_declared (s_inc s)) (i_recorded (s_inc s)) (i_files (s_inc s))
+                              (i_junk (s_inc s)))) (closing ++ [r]).
+Proof. intros Hr Ht. unfold timer_stop. cbn [f_s f_closing]. rewrite Hr, Ht, Z.eqb_refl. reflexivity. Qed.
+
+Definition trig (cid lvl : Z) : op := Msg None 0 lvl true true cid.
+Definition quiet (cid : Z) : op := Msg None 0 20 true true cid.
+Fixpoint quiets (from : Z) (n : nat) : list op := match n with O => [] | S k => quiet from :: quiets (from + 1) k end.
+
+(* second trigger in the instant of the trailing timer, after it; and an observer reacting, inside the batch in which
+   the 100-event quota ended the recording, to a later event of that batch: both get an incident of their own *)
+Example ex_trigger_after_timer :
+  let f := fst (iterations (mkCfg true true NoFault) fine_init
+                  [ICalls [quiet 0; trig 1 30; quiet 2] None; ITimer [] [trig 3 35]; ITimer [] []; ITimer [] []]) in
+  map ev_ids (i_files (s_inc (f_s f))) = [[1; 0; 1; 2]; [3; 0; 1; 2; 3]] /\ i_recorded (s_inc (f_s f)) = 2.
+Proof. vm_compute. split; reflexivity. Qed.
+
+Example ex_trigger_after_quota :
+  let f := fst (iterations (mkCfg true true NoFault) fine_init
+                  [ICalls (trig 0 30 :: quiets 1 103) (Some (101%nat, trig 200 35)); ITimer [] []; ITimer [] []]) in
+  i_recorded (s_inc (f_s f)) = 2 /\ in_some_file (s_inc (f_s f)) 200 = true /\ in_some_file (s_inc (f_s f)) 0 = true /\
+  map (fun l => List.length l) (i_files (s_inc (f_s f))) = [102%nat; 103%nat].
+Proof. vm_compute. repeat split; reflexivity. Qed.
+
+(* a trigger-level event emitted WHILE a reporter is recording does not start an incident (declare_incident hands it to
+   new_trigger, the documented overlap hook, a no-op): it is an ordinary trailing event of the running incident *)
+Lemma absorbed_by_running_incident c b i e r :
+  i_rep i = Some r ->
+  declare_incident c b i e = (mkInc (i_rep i) (i_zombie i) (i_declared i + 1) (i_recorded i) (i_files i) (i_junk i), false).
+Proof. intros Hr. unfold declare_incident, one_reporter_at_a_time. rewrite Hr. reflexivity. Qed.
+
+(* ... and therefore subject to the reporter's documented limits: it is dropped when it is the 101st event after the first
+   trigger, and when the trailing timer stops the recording before the eventual queue delivers it (both by design; the
+   harness counts such events as absorbed_triggers_dropped_by_limits, and replays these two histories on the real code) *)
+Theorem absorbed_trigger_subject_to_limits :
+  (exists its, let f := fst (iterations (mkCfg true true NoFault) fine_init its) in
+               f_closing f = [] /\ i_rep (s_inc (f_s f)) = None /\ i_declared (s_inc (f_s f)) = 2 /\
+               i_recorded (s_inc (f_s f)) = 1 /\ in_some_file (s_inc (f_s f)) 101 = false) /\
+  (exists its, let f := fst (iterations (mkCfg true true NoFault) fine_init its) in
+               f_closing f = [] /\ i_rep (s_inc (f_s f)) = None /\ i_declared (s_inc (f_s f)) = 2 /\
+               i_recorded (s_inc (f_s f)) = 1 /\ in_some_file (s_inc (f_s f)) 1 = false).
+Proof.
+  split.
+  - exists ([ICalls [trig 0 30] None] ++ map (fun o => ICalls [o] None) (quiets 1 100) ++
+            [ICalls [trig 101 30] None; ICalls [quiet 102] None; ITimer [] []; ITimer [] []]).
+    vm_compute. repeat split; reflexivity.
+  - exists [ICalls [trig 0 30] None; ITimer [trig 1 30] []; ITimer [] []; ITimer [] []].
+    vm_compute. repeat split; reflexivity.
+Qed.
